@@ -340,7 +340,7 @@ Definition sh_publish (ins : cdir -> string -> path -> prog (outcome (option N))
   | None =>
       LoadGet h h1 (fun l =>
       if (sharded_shard_capacity nshards total <? l / 2)%N
-      then force_maintain_shard h dir nshards total sid
+      then Mark 20 [] (force_maintain_shard h dir nshards total sid)    (* ghost: overload maintenance *)
       else Ret (Ok tt))
   end).
 
